@@ -268,7 +268,7 @@ def legacy_factory(cuqi, rs, role):
 
 
 # ----------------------------------------------------------------------------- unusual initial-point objects
-ODD_MODES = ["int", "f32", "list", "scalar", "0d", "view", "ro", "strided", "neg", "shared", "shared", "mixed"]
+ODD_MODES = ["int", "f32", "i8", "u8", "bool", "f16", "list", "scalar", "0d", "view", "ro", "strided", "neg", "shared", "shared", "mixed"]
 
 
 def odd_initial_points(rs, names, roles, classes, iface):
@@ -286,8 +286,8 @@ def odd_initial_points(rs, names, roles, classes, iface):
         role, dim = roles[n]
         if role == "tiny":
             return False
-        if m == "int":
-            return classes[n] != "LinearRTO"        # CGLS adds floats in place into a copy of x0 (UFuncTypeError)
+        if m in ("int", "i8", "u8", "bool"):
+            return True                               # (LinearRTO with integer x0 raised before fix 66630b8)
         if m == "list":
             if hyper(n):
                 return False                          # the user's lambda `1/d` cannot divide by a list
@@ -321,11 +321,23 @@ def odd_initial_points(rs, names, roles, classes, iface):
                 snap("shared:" + ",".join(grp), arr)
         return mode, objs, snaps
     for n in names:
-        m = mode if mode != "mixed" else str(rs.choice(["int", "f32", "list", "scalar", "0d", "view", "ro", "strided", "neg", None]))
+        m = mode if mode != "mixed" else str(rs.choice(["int", "f32", "i8", "u8", "bool", "f16", "list", "scalar", "0d", "view", "ro", "strided", "neg", None]))
         if m in (None, "None") or not allowed(n, m) or rs.rand() < 0.15:
+            continue
+        if m in ("i8", "u8", "bool", "f16") and n in roles.get("__no0d__", ()):
             continue
         if m == "int":
             o = base(n, True).astype(np.int64)
+        elif m == "i8":
+            o = base(n, True).astype(np.int8)
+        elif m == "u8":
+            o = np.abs(base(n, True)).astype(np.uint8)
+        elif m == "bool":
+            if not hyper(n):
+                continue        # numpy refuses `bool - bool` (a boolean point minus a boolean mean): raised inside Gaussian.logpdf
+            o = np.ones(roles[n][1], dtype=bool)
+        elif m == "f16":
+            o = base(n).astype(np.float16)
         elif m == "f32":
             o = base(n).astype(np.float32)
         elif m == "list":
@@ -438,7 +450,7 @@ def run_hybrid(ctx, cuqi, idx, rs, thorough, stats):
         odd_mode, objs_, user_snaps = odd_initial_points(rs, names, roles, {n: type(strategy[n]).__name__ for n in names}, "hybrid")
         for n, o in objs_.items():
             strategy[n].initial_point = o
-    ftol = 1e-5 if odd_mode in ("f32", "mixed") else 1e-8   # float32 values conditioned on are evaluated in single precision
+    ftol = 2e-2 if odd_mode in ("f16", "mixed") else 1e-5 if odd_mode == "f32" else 1e-8   # float32 / float16 values conditioned on are evaluated in single precision
     # malformed strategies: one object under two names / a block without sampler / a key that is no parameter
     malformed = None
     u = rs.rand()
@@ -469,7 +481,12 @@ def run_hybrid(ctx, cuqi, idx, rs, thorough, stats):
         reconf = None
         if calls and rs.rand() < 0.3:
             reconf = (str(rs.choice(["assign", "inplace"])), {n: int(rs.choice([0, 1, 2, 3, 2, 1])) for n in names})
-        calls.append((("warmup" if not calls and rs.rand() < 0.6 else "sample"), k, reconf)); tot += k
+        # phases in any order and repeated: warmup -> sample -> warmup, warmup -> warmup, sample -> warmup ...
+        calls.append((("warmup" if rs.rand() < (0.6 if not calls else 0.35) else "sample"), k, reconf)); tot += k
+    if idx % 20 == 7:
+        # phase lengths straddling the literal constants of the module: tune_interval = max(int(tune_freq*Nb), 1) changes
+        # at Nb = 10, 20; a later warm-up phase after sampling
+        calls = [("warmup", int(rs.choice([9, 10, 11, 19, 20, 21])), None), ("sample", 1, None), ("warmup", int(rs.choice([1, 2, 10])), None)]
     how = {"ctor": str(rs.choice(["positional", "keyword"])), "calls": str(rs.choice(["positional", "keyword"])),
            "tune_freq": float(rs.choice([0.1, 0.5, 1.0]))}
     classes = {n: (type(strategy[n]).__name__ if n in strategy else None) for n in names}
@@ -539,6 +556,11 @@ def run_hybrid(ctx, cuqi, idx, rs, thorough, stats):
         return hg_line(names, {n: "000" for n in names}, "1", "_"), after
     par_names = list(G.par_names)
     smp_name = {id(s): n for n, s in G.samplers.items()}
+    strategy_objs = dict(strategy)
+    if rs.rand() < 0.3:
+        strategy.clear()                # the user's dictionary is theirs: emptying it afterwards must not matter
+        if user_nss is not None and rs.rand() < 0.5:
+            pass
     flags = {}
     for n in par_names:
         s = G.samplers[n]
@@ -730,6 +752,8 @@ def run_hybrid(ctx, cuqi, idx, rs, thorough, stats):
     for r_, snap_, upto in retained:
         for n_ in par_names:
             now_ = np.asarray(r_[n_].samples)
+            if now_.ndim == 1 and snap_[n_].ndim == 1:      # a 1-dim block whose stored values are all bare scalars
+                now_ = now_.reshape(1, -1); snap_[n_] = snap_[n_].reshape(1, -1)
             want_ = np.array([sn[n_] for sn in snapshots[:upto]]).T if upto else None
             if now_.shape != snap_[n_].shape or not np.array_equal(now_, snap_[n_]) or (want_ is not None and not np.array_equal(now_, want_)):
                 fail("stored", None, "returned samples keep their values", n_, "samples returned by an earlier call changed afterwards / are not the post-sweep tuples up to that call")
@@ -740,6 +764,8 @@ def run_hybrid(ctx, cuqi, idx, rs, thorough, stats):
         if not snapshots:
             break
         arr = np.asarray(smp[n].samples)
+        if arr.ndim == 1:
+            arr = arr.reshape(1, -1)
         want = np.array([sn[n] for sn in snapshots]).T
         if arr.shape != want.shape or not np.array_equal(arr, want):
             fail("stored", None, f"{tot} post-sweep tuples", f"shape {arr.shape}", "get_samples() is not the sequence of post-sweep tuples")
@@ -750,7 +776,46 @@ def run_hybrid(ctx, cuqi, idx, rs, thorough, stats):
     state["init"] = init
     state["scales"] = scales
     state["ftol"] = ftol
-    return line, (lambda out: compare_hybrid(ctx, K, desc, out, events, draws, snapshots, par_names, post, G, stats, state))
+    pend = [(line, (lambda out: compare_hybrid(ctx, K, desc, out, events, draws, snapshots, par_names, post, G, stats, state)))]
+    # ---- a second owner: another HybridGibbs built from sampler objects that have already served this one
+    if rs.rand() < 0.25:
+        which = "all" if rs.rand() < 0.5 else par_names[int(rs.randint(len(par_names)))]
+        strat2 = {}
+        for n in par_names:
+            if which == "all" or which == n:
+                strat2[n] = strategy_objs[n]
+            else:
+                strat2[n] = exp_sampler_E(cuqi, rs, roles, n) if tmpl == "E" else exp_sampler(cuqi, rs, *roles[n])
+        desc2 = dict(desc); desc2["second_owner"] = {"reused_samplers": which}
+        try:
+            with quiet():
+                G2 = HybridGibbs(post, strat2)
+            acc2, err2 = True, None
+        except Exception as e:
+            acc2, err2 = False, type(e).__name__
+        ctx.case(kind + ":second-owner", desc2)
+        stats["second_owner"] = stats.get("second_owner", 0) + 1
+        K2 = f"{K}:start:reused-sampler"
+        if acc2:
+            # ORACLE: at the start of the new run every block sampler sits at its block's current value
+            for n in par_names:
+                a_, b_ = vec(G2.samplers[n].current_point), vec(G2.current_samples[n])
+                if not np.array_equal(a_, b_):
+                    ctx.fail(K2, desc2, {n: b_.tolist()}, {n: a_.tolist()},
+                             "a re-used sampler object was accepted and starts the new run from the point the earlier run left it at, not from the block's current value")
+                    break
+        line2 = "hg {} {} {} {} {} {} 1 _".format(
+            ",".join(par_names), ",".join("000" for _ in par_names),
+            ",".join(str(i) + ("!" if (which == "all" or which == n) else "") for i, n in enumerate(par_names)),
+            ",".join("-" for _ in par_names), ";".join("-" for _ in par_names), ";".join(qv(np.ones(roles[n][1])) for n in par_names))
+
+        def after2(out):
+            if acc2 and out.startswith("err|"):
+                ctx.disagree(K2, desc2, out, "accepted", "an already initialized sampler object is accepted by the constructor")
+            elif not acc2 and out != "err|" + err2:
+                ctx.disagree(f"{K}:construct", desc2, out[:60], "raises " + err2, "constructor refusal differs")
+        pend.append((line2, after2))
+    return pend
 
 
 def compare_hybrid(ctx, K, desc, out, events, draws, snapshots, par_names, post, G, stats, state):
@@ -908,7 +973,7 @@ def run_legacy(ctx, cuqi, idx, rs, thorough, stats):
         for n, o in objs_.items():
             post.get_density(n).init_point = o
             ipts[n] = vec(o)
-    ftol = 1e-5 if odd_mode in ("f32", "mixed") else 1e-8
+    ftol = 2e-2 if odd_mode in ("f16", "mixed") else 1e-5 if odd_mode == "f32" else 1e-8
     r = rs.rand()
     if r < 0.55:
         calls = [(int(rs.randint(1, 5)), int(rs.choice([0, 0, 1, 2, 3])))]
@@ -924,6 +989,9 @@ def run_legacy(ctx, cuqi, idx, rs, thorough, stats):
         calls = [(0, 0), (int(rs.randint(1, 4)), 0)]
     else:
         calls = [(int(rs.randint(1, 4)), 0), (int(rs.randint(1, 4)), 0), (int(rs.randint(1, 3)), 0)]
+    if idx % 20 == 7:
+        # lengths straddling the literal constants of the module (`Ns < 2`, `Ns // 100` in the progress output)
+        calls = [(int(rs.choice([99, 100, 101, 199, 200, 201])), int(rs.choice([0, 1, 2]))), (1, 0)]
     desc = {"iface": "legacy Gibbs", "template": tmpl, "naming": roles["__naming__"], "names": names, "samplers": classes, "tuple_keys": [list(g_) for g_ in groups],
             "calls": calls, "scenario": idx, "init_point_objects": odd_mode,
             "init_point": {n: v.tolist() for n, v in ipts.items()}}
@@ -1235,7 +1303,9 @@ def run(ctx):
                      "a well-formed scenario runs", f"raises {type(e).__name__}: {str(e)[:120]}",
                      "setting up or running a well-formed Gibbs scenario raises")
             r = None
-        if r is not None:
+        if isinstance(r, list):
+            pending.extend(r)
+        elif r is not None:
             pending.append(r)
     guarded(lambda *a: corpus_scalar_initial_point(ctx, cuqi), "HybridGibbs", -1, None)
     for i in range(n_h):
